@@ -1,13 +1,164 @@
 /-
-Driver ops of the "Mem" family. `run` returns `none` for op names it does not own.
+Driver ops of the "Mem" family (C18). `run` returns `none` for op names it does not own.
+
+  op <id> memseq G<k> (<a0> <a1> …) (<a0> <a1> …) …   one argument tuple per call of `m := deriveMem(f)`
+  op <id> memraw G<k> …                                same with an `f` that tells +0 from -0
+
+`ty G<k> (st P0 P1 …)` binds the parameter list, `ty G<k>r (st R0 R1 …)` the result list.
+Answer: `model=<answers>|<log> spec=<answers of f itself>|<class id per call> shape=… coll=…` where
+<answers> = `(r0_r1…);(…)…` in identity-erased wire form, <log> = `<i>:(args)` for every call `i`
+that reached `f`, the class id of a call is the index of the first call with structurally equal
+arguments, `coll` counts the calls whose hash bucket held an entry that was not Equal.
+
+The instrumented `f` of the corpus (harness/rt/mem.go, cmd/genmem) is mirrored by `fOf`.
 -/
 import GoderiveModel.U.Wire
+import GoderiveModel.U.Typing
+import GoderiveModel.S.Equal
+import GoderiveModel.S.Hash
+import GoderiveModel.S.Mem
+import GoderiveModel.Spec.Mem
+import GoderiveModel.Spec.StructEq
 import Driver.State
 
 open Goderive
 
 namespace OpsMem
 
-def run (_s : DState) (_name : String) (_args : List SExp) : Option String := none
+/-- mirror of `memDigest` (harness/rt/mem.go); the flag selects the commutative fold used for map
+entries -/
+def digestM (raw : Bool) : Bool → Val → UInt64
+  | _, .bool b => if b then 2 else 1
+  | _, .int n => 3 + 5 * toU64 n
+  | _, .flt w b => 7 + 11 * UInt64.ofNat (if raw then b else normBits w b)
+  | _, .cplx w a b =>
+    13 + 17 * UInt64.ofNat (if raw then a else normBits w a)
+       + 19 * UInt64.ofNat (if raw then b else normBits w b)
+  | _, .str bs => bs.foldl (fun h c => 131 * h + UInt64.ofNat c + 1) 23
+  | _, .nilv => 29
+  | _, .ptr _ v => 31 + 37 * digestM raw false v
+  | _, .slice _ _ es => 41 + 43 * digestM raw false es
+  | _, .arr es => 47 + 53 * digestM raw false es
+  | _, .struct es => 59 + 61 * digestM raw false es
+  | _, .map _ es => 67 + 71 * digestM raw true es
+  | _, .pair k v => 73 + 79 * digestM raw false k + 83 * digestM raw false v
+  | false, .snil => 89
+  | true, .snil => 0
+  | false, .scons h t => 97 * digestM raw false t + digestM raw false h + 101
+  | true, .scons h t => digestM raw false h + digestM raw true t
+
+def argsDigest (raw : Bool) (args : List Val) : UInt64 :=
+  args.foldl (fun h a => 31 * h + digestM raw false a) 7
+
+def tyFields : Ty → List Ty
+  | .fcons t r => t :: tyFields r
+  | _ => []
+
+def strBytes (s : String) : List Nat := s.toUTF8.toList.map (·.toNat)
+
+/-- mirror of `resExpr` (harness/cmd/genmem): result `j` of the instrumented `f` at type `T` -/
+partial def mkRes (env : Env) (T : Ty) (d : UInt64) (j : Nat) : Val :=
+  let dj := d + UInt64.ofNat j
+  match env.under T with
+  | .basic (.int _ _) => .int (Int.ofNat ((d + 7919 * UInt64.ofNat j) % 1000).toNat)
+  | .basic .string => .str (strBytes ("r" ++ toString (dj % 97).toNat))
+  | .basic .bool => .bool (dj % 2 == 1)
+  | .basic (.float _) =>
+    -- 1.5, -2.25, 0 as float64 bit patterns
+    .flt 64 (if dj % 3 == 0 then 4609434218613702656 else if dj % 3 == 1 then 13835621005235585024 else 0)
+  | .struct fs => .struct (Val.ofList ((tyFields fs).map fun F => mkRes env F d j))
+  | .slice E =>
+    if dj % 3 == 0 then .nilv
+    else .slice 0 0 (.scons (mkRes env E d j) (.scons (mkRes env E (d + 1) j) .snil))
+  | .ptr R => if dj % 4 == 0 then .nilv else .ptr 0 (mkRes env R d j)
+  | _ => .nilv
+
+/-- the instrumented deterministic `f` of the corpus for result types `rs` -/
+def fOf (env : Env) (rs : List Ty) (raw : Bool) : Mem.Fn := fun args =>
+  let d := argsDigest raw args
+  (List.range rs.length).zipWith (fun j T => mkRes env T d j) rs
+
+/-- identity-erased wire form without spaces (mirror of `memShow`) -/
+partial def showVal : Val → String
+  | .bool b => if b then "(b_1)" else "(b_0)"
+  | .int n => s!"(i_{n})"
+  | .flt w b => s!"(f_{w}_{b})"
+  | .cplx w a b => s!"(c_{w}_{a}_{b})"
+  | .str [] => "(s)"
+  | .str bs => s!"(s_{hexOfBytes bs})"
+  | .nilv => "nil"
+  | .ptr _ v => s!"(p_0_{showVal v})"
+  | .slice _ _ es => "(sl_0_0" ++ String.join (es.toList.map fun e => "_" ++ showVal e) ++ ")"
+  | .arr es => "(ar" ++ String.join (es.toList.map fun e => "_" ++ showVal e) ++ ")"
+  | .struct es => "(st" ++ String.join (es.toList.map fun e => "_" ++ showVal e) ++ ")"
+  | .map _ es =>
+    let ents := es.toList.map showVal
+    let sorted := ents.mergeSort (fun a b => !(decide (b < a)))
+    "(m_0" ++ String.join (sorted.map fun e => "_" ++ e) ++ ")"
+  | .pair k v => s!"({showVal k}_{showVal v})"
+  | .snil => "()"
+  | .scons h t => s!"({showVal h}{String.join (t.toList.map fun e => "_" ++ showVal e)})"
+
+def showTuple (vs : List Val) : String := "(" ++ "_".intercalate (vs.map showVal) ++ ")"
+
+def parseCall : SExp → Option (List Val)
+  | .list xs => xs.mapM parseVal
+  | _ => none
+
+def typedCall (env : Env) (ps : List Ty) (a : List Val) : Bool :=
+  a.length == ps.length && (List.zipWith (fun T v => hasType env T v && nanFree v) ps a).all id
+
+def shapeName : Mem.Shape → String
+  | .flag => "flag" | .single => "single" | .input => "input" | .bucket => "bucket"
+
+/-- number of calls that met, in the bucket of their hash, an entry that is not Equal -/
+def collisions (c : Mem.Cfg) (f : Mem.Fn) : Mem.State → List Mem.Args → Nat
+  | _, [] => 0
+  | s, a :: rest =>
+    let here := match s with
+      | .bucket t =>
+        let k := Mem.keyOf a
+        if ((Mem.tblGet t (c.hash k)).getD []).any (fun e => !c.eq e.1 k) then 1 else 0
+      | _ => 0
+    here + collisions c f (Mem.step c f s a).1 rest
+
+def runSeq (s : DState) (raw : Bool) (ps rs : List Ty) (calls : List (List Val)) : String :=
+  let env := s.env
+  if !heapConsistent ((calls.flatMap id).flatMap objs) then "ill-formed-heap" else
+  if !(calls.all (typedCall env ps)) then "ill-typed" else
+  let shape := Mem.shapeOf env ps
+  let KT := Mem.keyTy ps
+  let keys := calls.map Mem.keyOf
+  -- the derived Hash / Equal the bucket shape calls; a panic of either aborts the op
+  let hashOK := keys.all fun k => match Hash.top env KT k with | .ok _ => true | .panic => false
+  let eqOK := keys.all fun k => keys.all fun k' =>
+    match Equal.top env KT k k' with | .ok _ => true | .panic => false
+  if shape == .bucket && !(hashOK && eqOK) then "model=panic spec=panic" else
+  let cfg : Mem.Cfg := {
+    shape := shape, nres := rs.length,
+    hash := fun k => match Hash.top env KT k with | .ok h => h | .panic => 0,
+    eq := fun a b => match Equal.top env KT a b with | .ok r => r | .panic => false }
+  let f := fOf env rs raw
+  let tr := Mem.runFrom cfg f (Mem.init cfg) calls
+  let answers := ";".intercalate (tr.map fun e => showTuple e.2.1)
+  let idx := (List.range tr.length).zip tr
+  let log := ",".intercalate ((idx.filter fun e => e.2.2.2).map fun e => s!"{e.1}:{showTuple e.2.1}")
+  let PT := Mem.paramStruct ps
+  let same := fun (a0 a : List Val) => Spec.structEq env PT (.struct (Val.ofList a0)) (.struct (Val.ofList a))
+  let specAns := ";".intercalate ((Spec.Mem.answers f calls).map showTuple)
+  let ids := ",".intercalate ((Spec.Mem.classIds same calls).map toString)
+  let spec := if raw then "" else s!" spec={specAns}|{ids}"
+  s!"model={answers}|{log}{spec} shape={shapeName shape} coll={collisions cfg f (Mem.init cfg) calls}"
+
+def run (s : DState) (name : String) (args : List SExp) : Option String :=
+  if name != "memseq" && name != "memraw" then none else
+  some <|
+    match args with
+    | .atom g :: calls =>
+      match s.tys.lookup g, s.tys.lookup (g ++ "r"), calls.mapM parseCall with
+      | some (.struct pfs), some (.struct rfs), some cs =>
+        runSeq s (name == "memraw") (tyFields pfs) (tyFields rfs) cs
+      | _, _, _ => "bad-op"
+    | _ => "bad-op"
 
 end OpsMem
